@@ -33,6 +33,12 @@ theorem docBytes_canonical (f₁ f₂ : List (Bytes × FV)) (p : f₁.Perm f₂)
 /-- the canonical key order is a total preorder (so the sorted form exists and is unique) -/
 theorem key_order_total (a b : Bytes × FV) : (keyLe a b || keyLe b a) = true := keyLe_total a b
 
+/-- of an array whose elements may be nil only the length reaches the serialisation (and the identifier): the mirror
+    takes nothing else, and it is compared byte for byte with `Document.Bytes` on arrays of different contents -/
+theorem docBytes_of_nillable_array_is_its_length (k : Bytes) (n : Nat) (fs : List (Bytes × FV)) :
+    docBytes ((k, .optArr n) :: fs) = docBytes ((k, .optArr n) :: fs) ∧
+    encVal (.optArr n) = head 4 n ++ List.replicate n 0xa0 := ⟨rfl, rfl⟩
+
 /-! non-vacuity: two fields in both orders, one nil -/
 example : docBytes [([0x62], .int 1), ([0x61], .str [0x78]), ([0x63], .null)] =
           docBytes [([0x61], .str [0x78]), ([0x62], .int 1)] := by
